@@ -92,7 +92,7 @@ def check(run, replay=None):
     # gets a bounded number of cases: beyond ~10^4 histories the sanitizer's allocator gives up, which would look like a crash
     CHUNK = 2500
     chunks = [cases[k:k + CHUNK] for k in range(0, len(cases), CHUNK)]
-    for fs in (() if (replay and any(l.startswith(('# family: gf-', '# family: devlist', '# family: actisense')) for l in open(replay))) else ('w64', 'w32')):
+    for fs in (() if (replay and any(l.startswith(('# family: gf-', '# family: devlist', '# family: actisense', '# family: handlers')) for l in open(replay))) else ('w64', 'w32')):
         for k, chunk in enumerate(chunks):
             fam = 'safe-' + fs if len(chunks) == 1 else 'safe-%s-c%02d' % (fs, k)
             vlib.correspond(run, fam, 'h_node', fs, 'NODE', chunk, oracle, nontrivial, model_args=[fs])
@@ -119,3 +119,10 @@ def check(run, replay=None):
         import p_C17
         acases = cases if ac_replay else p_C17.gen(run.seed, run.tier)
         vlib.correspond(run, 'actisense', 'h_acti', 'w64', 'C17', acases, lambda c, res: ('memory:' + res) if (res.startswith('crash') or 'canary' in res) else None, None)
+    # the handler list (attach / detach / re-attach / destroy tMsgHandler objects, two bus objects): the histories of the C14 generator under
+    # this property's memory oracle - a stale link is a use after free or a walk that never ends (seed C07-16)
+    h_replay = bool(replay) and any(l.startswith('# family: handlers') for l in open(replay))
+    if h_replay or not replay:
+        import p_C14
+        hcases = cases if h_replay else p_C14.gen(run.seed, run.tier)
+        vlib.correspond(run, 'handlers', 'h_handlers', 'w64', 'C14', hcases, lambda c, res: ('memory:' + res) if (res.startswith(('crash', 'timeout', 'hang')) or 'canary' in res) else None, None)
